@@ -1,7 +1,7 @@
 /* C06: arbitrary token bytes through jwt_checker_verify under ASan/UBSan/LSan.
  * modes: gen    (grammar-derived near-valid tokens and random bytes, --n cases)
  *        corpus (every file in directory --arg1 is one token)
- * Every token is shown to 20 checkers (2 providers x {no key, HS256, RS256, ES256, Ed25519, PS256, ES384, ES512, ES256K, Ed448 public keys}) that all carry a
+ * Every token is shown to 22 checkers (2 providers x {no key, HS256, RS256, ES256, Ed25519, PS256, ES384, ES512, ES256K, Ed448 public keys}) that all carry a
  * reading callback.  Accepted tokens are logged in full (the offline classifier asserts accepted => not definitely
  * malformed); a thin sample of rejected ones is logged for the evidence.
  * With -DVH_FUZZ_MAIN the same harness is a libFuzzer target.
@@ -9,14 +9,14 @@
 #include "vh.h"
 #include <dirent.h>
 
-#define NKEYS 9
+#define NKEYS 10
 #define NCHK (2 * (NKEYS + 1))
 static jwt_checker_t *CHK[NCHK];
 static int CHK_PROV[NCHK];
 static vh_key_t K[NKEYS];
 static jwk_set_t *sets[2];
-static const char *KSPEC[NKEYS] = { "oct:40", "rsa:2048", "ec:P-256", "okp:Ed25519", "rsa:2048", "ec:P-384", "ec:P-521", "ec:secp256k1", "okp:Ed448" };
-static const int KALG[NKEYS] = { JWT_ALG_HS256, JWT_ALG_RS256, JWT_ALG_ES256, JWT_ALG_EDDSA, JWT_ALG_PS256, JWT_ALG_ES384, JWT_ALG_ES512, JWT_ALG_ES256K, JWT_ALG_EDDSA };
+static const char *KSPEC[NKEYS] = { "oct:40", "rsa:2048", "ec:P-256", "okp:Ed25519", "rsa:2048", "ec:P-384", "ec:P-521", "ec:secp256k1", "okp:Ed448", "ec:secp256k1" };
+static const int KALG[NKEYS] = { JWT_ALG_HS256, JWT_ALG_RS256, JWT_ALG_ES256, JWT_ALG_EDDSA, JWT_ALG_PS256, JWT_ALG_ES384, JWT_ALG_ES512, JWT_ALG_ES256K, JWT_ALG_EDDSA, JWT_ALG_ES256 /* a 256-bit curve GnuTLS cannot import: error path */ };
 static vh_rng_t rng;
 static unsigned long n_tokens, n_verify, n_accept, cb_calls;
 static unsigned long gen_class[32];
